@@ -196,6 +196,13 @@ def low_level_prelude():
     return len(t.get_midi_data())
 
 
+def change(rng, tspec, tobj, values, kw):
+    nkw = dict((k, v) for k, v in kw.items() if k in ("velocity", "same_channel"))
+    last = tspec["bars"][-1]
+    return MM.change_track(rng, tspec, tobj, lambda: MM.random_bar(rng, last["key"], tuple(last["meter"]), values, **nkw),
+                           lambda: MM.random_notes(rng, **nkw))
+
+
 def run(shard, ctx):
     kind = shard["kind"]
     if kind in ("files", "systematic"):
@@ -237,13 +244,23 @@ def run(shard, ctx):
                         specs = [t]
                     elif what == "track":
                         t = MM.random_track(rng, values, **kw)
+                        obj = MM.build_track(t)
+                        if rng.random() < 0.3:
+                            # written once, changed in place, written again: the file is of the track as it is now
+                            ctx.call(MO.write_Track, path, obj, bpm, repeat)
+                            w["written_before_then_changed"] = change(rng, t, obj, values, kw)
                         w["track"] = t
-                        st, r = ctx.call(MO.write_Track, path, MM.build_track(t), bpm, repeat)
+                        st, r = ctx.call(MO.write_Track, path, obj, bpm, repeat)
                         specs = [t]
                     else:
                         c = MM.random_composition(rng, values, **kw)
+                        obj = MM.build_composition(c)
+                        if rng.random() < 0.3:
+                            ctx.call(MO.write_Composition, path, obj, bpm, repeat)
+                            k = rng.randrange(len(c["tracks"]))
+                            w["written_before_then_changed"] = [k, change(rng, c["tracks"][k], obj.tracks[k], values, kw)]
                         w["composition"] = c
-                        st, r = ctx.call(MO.write_Composition, path, MM.build_composition(c), bpm, repeat)
+                        st, r = ctx.call(MO.write_Composition, path, obj, bpm, repeat)
                         specs = c["tracks"]
                     tls = [MM.track_timeline(t, repeat) for t in specs]
                 if st != "ok" or r is not True:
